@@ -14,6 +14,7 @@ func (e *Engine) newBareCtx(name string) *FnCtx {
 		loops: map[*ssa.BasicBlock]*loopInfo{}, backEdge: map[[2]int]bool{}, ghost: map[string]string{}, ghostSort: map[string]string{},
 		ghost0: map[string]string{}, subrefSeen: map[string]bool{}, strLits: map[string]string{}, debugRefs: map[types.Object][]*ssa.DebugRef{},
 		paramVals: map[string]Val{}, trusted: map[string]bool{}, curLoopPre: map[*ssa.BasicBlock]*Heap{}}
+	fc.installHeapNamer()
 	fc.entryHeap = fc.baseHeap()
 	fc.heap = fc.entryHeap
 	fc.curReach = "true"
